@@ -51,6 +51,8 @@ impl RocksDBTransaction {
 
     /// Commit the transaction.
     pub fn commit(&self) -> Result<()> {
+        #[cfg(feature = "verif-hooks")]
+        crate::verif::point("transaction-commit");
         self.inner.commit().map_err(internal_error)
     }
 
